@@ -76,11 +76,20 @@ RULE = ('ballots from the grammar (str, Person with/without party, PoliticalPart
         'with every flag combination, built through bound tuples / dictionaries and (20%) through explicit checker objects; op '
         'eliminate on dictionaries of 1-7 hashable ballots. Thorough tier adds the exhaustive scope: every object of depth <= 2 '
         'over six atoms (two strings, a Person, a blank vote, 1, None) with containers of at most two members x 72 configurations. '
-        'Non-trivial = a container ballot or an eliminate call; distinct by canonical request.')
+        'Audit dimensions (harness/GENERATOR_CHECKLIST.md): bounds handed over as int / Fraction / Decimal / float (dyadic and 1.4-like) / '
+        'bool, zero, negative, crossing; bound dictionaries with key 0 and keys beyond the ballot; all ten nominator flag combinations, '
+        'flags set after construction, the default nominator; candidate objects with an empty name, one-member / nested / empty coalitions, '
+        'equal-looking distinct objects, a string named like an object; unhashable values at every position; shared ranks of 3-4, empty '
+        'shared ranks, ranks given as list / set / tuple / dict; a candidate scored twice with the same / an equal / another score; scores '
+        'as Decimal (incl. 7+ digits), Fraction, float, bool, ints beyond 2**53 and 10**400, hash-alike scores; one validator object over '
+        'a sequence of ballots (op validate_seq, optionally after a differently configured validator); the filter on dictionaries mixing '
+        'all ballot kinds with counts of every exact type; ballots of 0, 1 and 50-64 choices. '
+        'Non-trivial = a container ballot, a sequence or an eliminate call; distinct by canonical request.')
 NOT_VERIFIED = [
     'numbers are modelled by their exact value (int, Fraction and Decimal are not distinguished; float and bool are outside the grammar; '
-    'a ballot mixes ints with at most one of Fraction / Decimal, because Python cannot add a Decimal to a Fraction; Decimals stay below '
-    'the 28-digit context precision)',
+    'a ballot mixes ints with at most one of Fraction / Decimal / float, because Python cannot add a Decimal to a Fraction or a float; '
+    'Decimals stay below the 28-digit context precision; float scores and float bounds are doubles taken at their exact value, and float '
+    'scores only occur in ballots whose sums are exactly representable — binary rounding of float arithmetic is outside the property)',
     'a Python set is modelled as the list of its members in the iteration order observed on the real object (hash order)',
     'equality / hashing of Python values is modelled as structural equality of encodings (candidate objects by identity)',
     'candidate classes are modelled by kind (Person with/without candidacy_for, PoliticalParty, Coalition, BlankVoteOption); '
@@ -969,7 +978,7 @@ def gen_score(rng, tags, vt, hashable=False, nom=None):
                   for _ in cands]
     if vt == 'range' and len(scores) >= 2 and rng.random() < 0.06:
         scores[0], scores[1] = N(-1), N(-2)            # hash(-1) == hash(-2)
-    if vt == 'range' and len(scores) >= 2 and rng.random() < 0.04:
+    if vt == 'range' and len(scores) >= 2 and rng.random() < 0.04 and not any(x.get('fl') for x in scores if x is not None):
         scores[0], scores[1] = N(5), N(5 + 2 ** 61 - 1)   # equal hashes modulo 2**61 - 1
     if rng.random() < 0.08:
         scores = [N(Fraction(x['n']), b=True) if (is_num(x) and Fraction(x['n']) in (0, 1) and not x.get('F') and not x.get('D') and not x.get('fl'))
@@ -1369,7 +1378,7 @@ def gen_long(rng):
     cands = [S(i) for i in rng.sample(range(12, 140), n - 4)] + [Cd('person_party', 0), Cd('party', 3), S(4), Cd('blank', 2)]
     rng.shuffle(cands)
     tags = ['long_ballot']
-    defect = rng.choice(['none', 'none', 'dup', 'bad', 'count', 'rankbound'])
+    defect = rng.choice(['none', 'none', 'dup', 'bad', 'count', 'rankbound', 'rankbound'])   # rankbound = sum bound for score votes
     cb = [str(n), str(n)] if defect != 'count' else rng.choice([[str(n + 1), None], [None, str(n - 1)]])
     if vt == 'approval':
         xs = list(cands)
@@ -1392,7 +1401,8 @@ def gen_long(rng):
         items.append({'t': [cands[5], N(9)]})
     if defect == 'bad':
         items[-1] = {'t': [N(1), N(1)]}
-    val = {'vt': vt, 'n': cb if defect != 'dup' else [None, None], 'sum': {'by': [[n, [str(total), str(total)]], [0, ['1', '1']]]}, 'nom': nom}
+    sb = [str(total + 1), None] if defect == 'rankbound' else [str(total), str(total)]    # fails only for this many scorings
+    val = {'vt': vt, 'n': cb if defect != 'dup' else [None, None], 'sum': {'by': [[n, sb], [0, ['1', '1']]]}, 'nom': nom}
     if vt == 'enum':
         val['levels'] = [N(0), N(1), N(2), N(3), N(9)]
     else:
@@ -1760,6 +1770,10 @@ def generate(rng, tier):
         val = c['val']
         tags.append('vt:' + val['vt'])
         tags.append('nom:' + val['nom']['k'])
+        if 'exhaustive' in tags:            # the enumerated scope needs no per-case structure tags
+            c['_tags'] = sorted(set(tags))
+            yield c
+            continue
         tags += sorted(config_tags(val))
         if c['op'] == 'validate':
             why = rule(val, c['vote'])
